@@ -324,6 +324,11 @@ theorem depMissing_nil : ∀ {infos : List FieldInfo}, (∀ f ∈ infos, f.requi
     rw [depMissing, depViolated_false (h f (List.mem_cons_self ..))]
     exact depMissing_nil (fun g hg => h g (List.mem_cons_of_mem _ hg)) kvs
 
+/-- the additional keys of a TypedDict under `additional_properties`: the keys of the datum that are no alias of the class, copied as they are -
+except those spelled like a declared field's own name (an additional key never takes the place of a declared field: row 76) -/
+def extraVals (names aliases : List String) (kvs : List (String × Py)) : List (String × Val) :=
+  (unexpectedKeys aliases kvs).filterMap (fun k => if names.contains k then Option.none else (lookupKey kvs k).map (fun v => (k, asVal v)))
+
 /-- tail of `ObjectMethod.deserialize` (no aggregate fields, no validators) -/
 def finishObj (ci : ClassInfo) (infos : List FieldInfo) (own : List Rule) (ap : Bool) (aliases : List String) (acc : FAcc)
     (kvs : List (String × Py)) : Outcome Val :=
@@ -334,7 +339,7 @@ def finishObj (ci : ClassInfo) (infos : List FieldInfo) (own : List Rule) (ap : 
     let errs := addDepMissing (depMissing infos kvs)
                   (if kvs.length != acc.count && !ap then addUnexpected extra acc.errs else acc.errs)
     let vals := if kvs.length != acc.count && ap && ci.kind == .typedDict
-                then acc.vals ++ (extra.filterMap (fun k => (lookupKey kvs k).map (fun v => (k, asVal v))))
+                then acc.vals ++ extraVals (infos.map (·.name)) aliases kvs
                 else acc.vals
     if errs.isEmpty && own.isEmpty then .ok (construct ci infos vals) else .invalid (.mk own errs)
 
